@@ -1,5 +1,5 @@
 """C20 — synthetic generators deliver the requested size, edge count, symmetry, degree sequences, band structure."""
-import io, contextlib
+import io, contextlib, inspect
 from fractions import Fraction as F
 import numpy as np
 from common import *
@@ -115,7 +115,7 @@ class NpProxy:
 
 
 def with_np_proxy(f, *a, **k):
-    g = f.__globals__
+    g = inspect.unwrap(f).__globals__        # (bct functions reach the harness through the input-variant proxy of common.py)
     real = g.get('np')
     px = NpProxy(real)
     g['np'] = px
